@@ -1775,3 +1775,41 @@ def c01_drain(ctx):
     ctx.check(keep or drain_all, wr, "jobs of backends without retrieval callback are never dropped (%s)" % (
         "the retrieval loop keeps going while jobs are queued" if keep else "the drain after finally covers them"),
         "for backends without a retrieval callback the retrieval loop may stop with jobs still queued AND the drain after finally skips them: results are silently lost")
+
+
+def c09_per_call_inputs(ctx):
+    """Everything the dispatch code reads that is not fixed at construction time is (re)computed by every
+    call before dispatching starts (a value left over from an earlier call - e.g. the worker count cached
+    when the backend was configured - would size the look-ahead of this call)."""
+    cls = ctx.repo.cls(PAR, "Parallel")
+    init = F(ctx, "Parallel.__init__")
+    methods = {m.name for m in cls.body if isinstance(m, ast.FunctionDef)}
+    init_attrs = set()
+    for n in ast.walk(init):
+        if isinstance(n, (ast.Assign, ast.AugAssign, ast.AnnAssign)):
+            init_attrs.update(t[5:] for t in stores_to(n) if t.startswith("self.") and t.count(".") == 1)
+    # class-level attributes and Logger base attributes are construction-time too
+    for st in cls.body:
+        if isinstance(st, ast.Assign):
+            init_attrs.update(stores_to(st))
+    readers = ["Parallel.dispatch_one_batch", "Parallel._dispatch", "Parallel.dispatch_next", "Parallel._get_batch_size", "Parallel._register_new_job"]
+    read = {}
+    for q in readers:
+        fn = F(ctx, q)
+        for n in body_walk(fn):
+            if isinstance(n, ast.Attribute) and isinstance(n.value, ast.Name) and n.value.id == "self" and isinstance(n.ctx, ast.Load):
+                if n.attr not in methods and n.attr not in init_attrs:
+                    read.setdefault(n.attr, n)
+    ctx.floor(len(read), 4, "per-call attributes read by the dispatch code")
+    call = F(ctx, "Parallel.__call__")
+    g = cfg_of(call)
+    go = list(calls_in(call, "self._get_outputs"))
+    ctx.need(go, "__call__ no longer starts _get_outputs")
+    for attr in sorted(read):
+        def is_store(n, attr=attr):
+            return isinstance(n, (ast.Assign, ast.AnnAssign)) and ("self." + attr) in stores_to(n)
+        ss = sites(ctx.res, call, is_store, depth=2, must=True)
+        ok = bool(ss) and g.every_path_to(g.nodes_of_all(go), g.nodes_of_all(ss))
+        ctx.check(ok, ss[0] if ss else read[attr], "self.%s (read while dispatching) is assigned on every path of __call__ before dispatching starts" % attr,
+                  "self.%s is read by the dispatch code but not assigned by every call before dispatching starts: inside a `with Parallel(...)` block a stale value of an "
+                  "earlier call (or configuration) is used" % attr, key=PAR + "::Parallel.__call__::per-call input self." + attr)
